@@ -399,10 +399,12 @@ fn on_step<K: Kit>(tier: &str, idx: usize, st: &mut PrmStep<K>, rep: &mut Report
     if st.rig.snapshot().key() != st.post.key() {
         fail!("problem-replacement-changed-roadmap", "the query sequence modified the roadmap".into(), "query-P1-again");
     }
+    // (quick tier: P5 and P6 in every fourth state)
+    let extra_queries = tier != "quick" || (st.hist.iter().map(|x| *x as usize).sum::<usize>() + st.letter as usize) % 4 == 0;
     // ---- P5: the reversed problem again, this time with an IDENTICAL space behind ANOTHER Arc (a helper
     // that builds problem definitions from scratch): the roadmap is a function of the samples, not of
     // which allocation holds the space - it stays, and the answer is P2's
-    {
+    if extra_queries {
         let other_space = Arc::new(crate::seams::Scripted::<K>::new(K::build(&st.sc.spec), st.rig.alphabet.clone()));
         let pd5 = Arc::new(Pd::<K> { space: other_space, start_states: vec![p2_start.clone()], goal: p2_goal.clone() });
         st.rig.drv.set_problem_definition(pd5);
@@ -421,7 +423,7 @@ fn on_step<K: Kit>(tier: &str, idx: usize, st: &mut PrmStep<K>, rep: &mut Report
     // ---- P6: problems owned by the planner alone. A is installed and queried; B replaces it (A is freed);
     // C is allocated next - the allocator hands out A's block again - and asks the REVERSED question.
     // Whatever a planner remembers about "the problem I answered last" must not be keyed by its address.
-    {
+    if extra_queries {
         let pa = Arc::new(Pd::<K> { space: st.rig.space.clone(), start_states: vec![start.clone()], goal: goal.clone() });
         let addr_a = Arc::as_ptr(&pa) as usize;
         st.rig.drv.set_problem_definition(pa);
@@ -498,6 +500,122 @@ fn interrupted_construction<K: Kit>(tier: &'static str, idx: usize, sc: &Scenari
     });
 }
 
+/// Dense roadmaps: the real sampler and the seeded generator build a roadmap of 60-160 milestones with
+/// a radius that makes (nearly) every pair a candidate - neighbourhoods of dozens of milestones, which
+/// five alphabet samples cannot produce. The whole graph is then judged by the same laws: links
+/// symmetric / irreflexive / duplicate-free / shorter than the radius / through no obstacle, every pair
+/// closer than the radius with an entirely valid motion linked, and the query answered as the reference
+/// graph search says. An enumerated-seed exploration, reported under its own counters.
+fn dense_roadmap<K: Kit>(tier: &'static str, idx: usize, sc0: &Scenario, seed: u64, n_samples: usize, radius_mul: f64, rep: &mut Report) {
+    let mut sc = sc0.clone();
+    sc.params.seed = Some(seed);
+    sc.params.step = sc0.params.step * radius_mul; // PRM: step = connection radius
+    let info = json!({"mode": "dense-roadmap", "scenario_index": idx, "seed": seed, "samples": n_samples, "radius_mul": radius_mul});
+    crate::props_deep::set_current(Some(info.clone()));
+    crate::explore::watch_desc(|| json!({"dense": info, "scenario": sc.tag}).to_string());
+    let rp = |extra: Value| json!({"kind": "deep", "prop": "C18", "tier": tier, "deep": info, "scenario": sc.json(), "detail": extra});
+    let built = guarded(|| {
+        let mut rig = Rig::<K>::new(&sc, true);
+        rig.pass_through();
+        rig.logging(true);
+        oxmpl::verif::clock_reset(1_000_000);
+        rig.drv.set_prm_timeout(crate::drv::iters_secs(n_samples));
+        let r = rig.drv.construct_roadmap();
+        (rig, r)
+    });
+    let (mut rig, r) = match built {
+        Ok(x) => x,
+        Err(Caught::Panic(msg)) => {
+            rep.violate("C18|PRM|dense|panic".into(), format!("construct_roadmap unwound: {msg}"), || rp(json!({})));
+            crate::props_deep::set_current(None);
+            return;
+        }
+        Err(c) => {
+            rep.engine_error(format!("dense roadmap {}: {c:?}", sc.tag));
+            crate::props_deep::set_current(None);
+            return;
+        }
+    };
+    rep.count("dense_roadmaps", 1);
+    if r.is_err() {
+        rep.count("dense_constructions_with_error", 1);
+    }
+    let Snap::Roadmap(g) = rig.snapshot() else { unreachable!() };
+    rep.max("max_dense_milestones", g.len() as u64);
+    rep.max("max_dense_degree", g.iter().map(|(_, e)| e.len()).max().unwrap_or(0) as u64);
+    let sp = rig.space.inner.clone();
+    let radius = sc.params.step;
+    let rtol = 1e-12 * radius.abs().max(1.0);
+    let mut bad: Option<(String, String)> = None;
+    'outer: for (i, (si, ei)) in g.iter().enumerate() {
+        if !rig.world.free(si) {
+            bad = Some(("invalid-milestone".into(), format!("milestone {i} is rejected by the checker")));
+            break;
+        }
+        let mut seen = std::collections::HashSet::new();
+        for &j in ei {
+            if j >= g.len() {
+                bad = Some(("edge-out-of-range".into(), format!("milestone {i} lists {j}")));
+                break 'outer;
+            }
+            if j == i {
+                bad = Some(("self-link".into(), format!("milestone {i} lists itself")));
+                break 'outer;
+            }
+            if !seen.insert(j) {
+                bad = Some(("duplicate-link".into(), format!("milestone {i} lists {j} twice")));
+                break 'outer;
+            }
+            if !g[j].1.contains(&i) {
+                bad = Some(("asymmetric-link".into(), format!("milestone {i} lists {j} but not vice versa (degree of {i}: {}, of {j}: {})", ei.len(), g[j].1.len())));
+                break 'outer;
+            }
+        }
+        for j in (i + 1)..g.len() {
+            let d = sp.distance(si, &g[j].0);
+            let linked = ei.contains(&j);
+            rep.count("dense_pairs_checked", 1);
+            if linked {
+                if d > radius + rtol {
+                    bad = Some(("link-longer-than-radius".into(), format!("milestones {i},{j} are {d} apart, radius {radius}")));
+                    break 'outer;
+                }
+                if classify_motion(&rig, si, &g[j].0).0 == Motion::MustReject {
+                    bad = Some(("link-through-obstacle".into(), format!("link {i}-{j} crosses an obstacle")));
+                    break 'outer;
+                }
+            } else if d < radius - rtol && (classify_motion(&rig, si, &g[j].0).0 == Motion::MustAccept && classify_motion(&rig, &g[j].0, si).0 == Motion::MustAccept) {
+                bad = Some(("valid-pair-not-linked".into(), format!("milestones {i},{j} are {d} apart (radius {radius}) with an entirely valid motion but are not linked")));
+                break 'outer;
+            }
+        }
+    }
+    if let Some((k, w)) = bad {
+        rep.violate(format!("C18|PRM|dense|{k}"), w, || rp(json!({"milestones": g.len()})));
+        crate::props_deep::set_current(None);
+        return;
+    }
+    // the query, and the reversed one
+    let (start, goal) = (rig.start.clone(), rig.goal.clone());
+    if let Ok(res) = guarded(|| rig.drv.solve(LONG)) {
+        rep.count("dense_queries", 1);
+        if let Err((k, w)) = check_query::<K>(&rig, &g, &start, &goal, &res, rep) {
+            rep.violate(format!("C18|PRM|dense|{k}"), w, || rp(json!({"milestones": g.len()})));
+        }
+    }
+    let p2_start = K::from_v(&sc.goal_samples[0]);
+    let p2_goal = Arc::new(HGoal::<K>::new(vec![(start.clone(), sc.goal_balls[0].1)], vec![start.clone()], dist_fn::<K>(&sc.spec)));
+    let pd2 = Arc::new(Pd::<K> { space: rig.space.clone(), start_states: vec![p2_start.clone()], goal: p2_goal.clone() });
+    rig.drv.set_problem_definition(pd2);
+    if let Ok(res) = guarded(|| rig.drv.solve(LONG)) {
+        rep.count("dense_queries", 1);
+        if let Err((k, w)) = check_query::<K>(&rig, &g, &p2_start, &p2_goal, &res, rep) {
+            rep.violate(format!("C18|PRM|dense|replaced-problem:{k}"), w, || rp(json!({"milestones": g.len()})));
+        }
+    }
+    crate::props_deep::set_current(None);
+}
+
 fn run_one<K: Kit>(tier: &'static str, idx: usize, sc: &Scenario, letters: Option<&[u8]>, depth: Option<usize>) -> Report {
     let mut rep = Report::new();
     let letters: Vec<u8> = letters.map(|l| l.to_vec()).unwrap_or_else(|| (0..sc.alphabet.len() as u8).collect());
@@ -533,10 +651,30 @@ fn run_kit<K: Kit>(tier: &'static str, scs: &[(usize, Scenario)]) -> Report {
             jobs.push((*i, sc, Some(b.sub3.clone()), Some(9)));
         }
     }
-    jobs.par_iter().map(|(i, sc, l, d)| run_one::<K>(tier, *i, sc, l.as_deref(), *d)).reduce(Report::new, |mut a, b| {
+    let mut rep = jobs.par_iter().map(|(i, sc, l, d)| run_one::<K>(tier, *i, sc, l.as_deref(), *d)).reduce(Report::new, |mut a, b| {
         a.merge(b);
         a
-    })
+    });
+    // dense roadmaps (seed lattice x two radii), on the free world and the one-obstacle world of the largest radius
+    let (seeds, n) = if tier == "quick" { (2u64, 64usize) } else { (16, 150) };
+    let dense: Vec<(usize, &Scenario, u64, f64)> = scs
+        .iter()
+        .filter(|(_, s)| (s.world.name == "free" || s.world.name == "subset0001") && s.tag.ends_with("PRMr1.6"))
+        .flat_map(|(i, s)| (0..seeds).flat_map(move |seed| [(*i, s, seed, 1.0), (*i, s, seed, 1e6)]))
+        .collect();
+    let dr = dense
+        .par_iter()
+        .map(|(i, sc, seed, rm)| {
+            let mut r = Report::new();
+            dense_roadmap::<K>(tier, *i, sc, *seed, n, *rm, &mut r);
+            r
+        })
+        .reduce(Report::new, |mut a, b| {
+            a.merge(b);
+            a
+        });
+    rep.merge(dr);
+    rep
 }
 
 pub fn run(tier: &'static str) -> i32 {
@@ -560,7 +698,7 @@ pub fn run(tier: &'static str) -> i32 {
             "the roadmap is built by one construct_roadmap call whose logical-clock budget admits exactly the scripted samples".into(),
             "motions in the grey zone (an invalid stretch shorter than L) may be accepted or rejected".into(),
         ],
-        must_be_positive: vec!["milestones_added", "invalid_samples_discarded", "edges_added", "pairs_not_linked", "queries_ok", "queries_no_solution", "multi_hop_paths", "reconstruct_checks", "replaced_problem_queries", "interrupted_constructions", "interrupted_constructions_that_reported_an_error"],
+        must_be_positive: vec!["milestones_added", "invalid_samples_discarded", "edges_added", "pairs_not_linked", "queries_ok", "queries_no_solution", "multi_hop_paths", "reconstruct_checks", "replaced_problem_queries", "interrupted_constructions", "interrupted_constructions_that_reported_an_error", "dense_roadmaps", "dense_queries", "problem_address_reused", "other_arc_space_queries"],
     };
     finish(&meta, rep, t0)
 }
